@@ -85,7 +85,7 @@ def decoders_for(spec, n, k, tier):
 COMPLETE = {"syndrome", "ml", "inverse_rm"}
 
 
-def run_words(ctx, dec, cell, spec, dname, msgs_int, errs_int, cbook, n, k, clause, layout="batch"):
+def run_words(ctx, dec, cell, spec, dname, msgs_int, errs_int, cbook, n, k, clause, layout="batch", dtype=None):
     """Decode codeword(msg)+err for aligned arrays; compare with msg."""
     import torch
     cw = cbook[msgs_int.astype(np.int64)]
@@ -93,8 +93,23 @@ def run_words(ctx, dec, cell, spec, dname, msgs_int, errs_int, cbook, n, k, clau
     X = _bits(rx, n)
     ccase0 = {"spec": spec, "decoder": dname, "layout": layout}
     outs = None
+    if dtype is not None:
+        # the same words as an integer tensor (the natural type of hard decisions); words repeat so that equal syndromes meet on one object
+        ccase0["dtype"] = dtype
+        tdt = getattr(torch, dtype)
+        try:
+            with __import__("kverif.core", fromlist=["quiet"]).quiet():
+                outs = np.concatenate([np.asarray(dec(torch.from_numpy(X.copy()).to(tdt)).detach().to(torch.float64).numpy()).reshape(len(X), -1) for _ in range(2)])
+        except Exception:
+            ctx.cls("dtype_rejected_" + dtype)
+            return
+        X = np.concatenate([X, X])
+        msgs_int = np.concatenate([msgs_int, msgs_int])
+        errs_int = np.concatenate([errs_int, errs_int])
     try:
-        if layout == "1d":
+        if outs is not None:
+            pass
+        elif layout == "1d":
             outs = np.stack([np.asarray(dec(torch.from_numpy(X[i].copy())).detach().numpy()).reshape(-1) for i in range(len(X))])
         elif layout == "small":
             # small batches of size 1..6, so that every word sits at several different row indices
@@ -236,6 +251,8 @@ def check_cell(ctx, spec, only_decoder=None):
                 sub = rng.choice(len(msgs), size=min(len(msgs), 60 if dname != "bm" else 24), replace=False)
                 run_words(ctx, dec, {**cell, "layout": "1d"}, spec, dname, msgs[sub], errs[sub], cbook, n, k, clause, "1d")
                 run_words(ctx, dec, {**cell, "layout": "small"}, spec, dname, msgs[sub], errs[sub], cbook, n, k, clause, "small")
+                for dt in ("int32", "int64"):
+                    run_words(ctx, dec, {**cell, "dtype": dt}, spec, dname, msgs[sub], errs[sub], cbook, n, k, clause, "batch", dtype=dt)
             else:
                 # large k: codewords computed on the fly
                 m = bud // 4
@@ -409,7 +426,7 @@ def check_case(ctx, cell, case):
         _run_large(ctx, dec, cell, spec, dname, M, cw, np.array([case["error"]], dtype=np.uint64), n, k, "C02.a_correct")
     else:
         run_words(ctx, dec, cell, spec, dname, np.array([case["message"]], dtype=np.uint64), np.array([case["error"]], dtype=np.uint64), cbook, n, k,
-                  "C02.a_correct", case.get("layout", "batch"))
+                  "C02.a_correct", case.get("layout", "batch"), dtype=case.get("dtype"))
 
 
 def unit_specs(ctx, specs):
@@ -434,7 +451,7 @@ def unit_generated(ctx, n_cases, shard):
         else:
             spec = {"family": "generic", "G": x, "has_identity_cols": False}
         check_cell(ctx, spec)
-    draw_cases(st.one_of(c01.full_rank_G(5, 10), c01.parity_P()), n_cases, ctx.seed * 7919 + shard, f)
+    draw_cases(st.one_of(c01.full_rank_G(5, 10), c01.pivot_G(5, 12), c01.parity_P()), n_cases, ctx.seed * 7919 + shard, f)
 
 
 def units(tier, seed):
@@ -451,8 +468,6 @@ def units(tier, seed):
                 continue
             keep.append(s)
         specs = keep
-        # the property quantifies over all RM(r,m) with m<=5: the shared quick catalogue stops at m=4
-        specs += [{"family": "rm", "r": r, "m": 5} for r in range(0, 5)]
 
     def w(s):
         f = s["family"]
